@@ -165,6 +165,39 @@ pub fn run(ctx: &mut Ctx) {
                 format!("code={}", o.status.code().unwrap_or(-1))
             });
         }
+        // 7. output directories: every (nested) parent directory of every output exists when the command starts
+        let ncases = if ctx.thorough() { 400 } else { 80 };
+        for _ in 0..ncases {
+            let nouts = 1 + ctx.rng.below(4);
+            let mut outs: Vec<String> = vec![];
+            for _ in 0..nouts {
+                let depth = ctx.rng.below(4);
+                let mut comps: Vec<String> = vec![];
+                for _ in 0..depth { comps.push(["da", "db", "dc"][ctx.rng.below(3)].to_string()); }
+                comps.push(format!("f{}", outs.len()));
+                let p = comps.join("/");
+                outs.push(p);
+            }
+            ctx.count("outdir_cases");
+            if outs.len() > 1 { ctx.count("outdir_multi"); }
+            let case = format!("n2bin outdirs {}", outs.iter().map(|o| hex(o.as_bytes())).collect::<Vec<_>>().join(" "));
+            ctx.emit(&case, || {
+                tp.reset();
+                let mut cands: Vec<String> = vec![];
+                for o in &outs {
+                    let comps: Vec<&str> = o.split('/').collect();
+                    for i in 1..comps.len() { let d = comps[..i].join("/"); if !cands.contains(&d) { cands.push(d); } }
+                }
+                let m = format!("rule r\n  command = for d in $dirs; do test -d \"$$d\" && echo \"$$d\"; done > probe.log; touch $out\nbuild {}: r\n  dirs = {}\n", outs.join(" "), cands.join(" "));
+                std::fs::write("build.ninja", m).unwrap();
+                let o = Command::new(&bin).output();
+                let Ok(o) = o else { return "spawn-failed".into() };
+                let probe = std::fs::read_to_string("probe.log").unwrap_or_default();
+                let mut have: Vec<String> = probe.lines().map(|l| hex(l.as_bytes())).collect();
+                have.sort(); have.dedup();
+                format!("code={} dirs={}", o.status.code().unwrap_or(-1), have.join(","))
+            });
+        }
         ctx.emit("n2bin fds", || {
             tp.reset();
             // four commands at once, each listing its descriptors while the others run
